@@ -225,7 +225,7 @@ def geometric_occurrences(w, u):
     return out
 
 
-def letter_occurrences(w, u, gap):
+def letter_occurrences(w, u, gap, q=None):
     """The factor-by-factor test, stated on letters.  A factor f of u sits at position s of w if
     the pin of w at s lies in the quadrant f[0] (relative to the origin) and is followed by the
     letters f[1:].  gap=True additionally demands, for every factor after the first, that a factor
@@ -233,7 +233,8 @@ def letter_occurrences(w, u, gap):
     gap=False lets them touch (behaviour of the implementation at the time of writing: the
     deviation model of the known finding)."""
     fs = factors(u)
-    q = quadrants(w)
+    if q is None:
+        q = quadrants(w)
     n = len(w)
 
     def rec(j, lo):
@@ -263,3 +264,61 @@ def patterns_of(p):
         for idx in itertools.combinations(range(n), k):
             out.add(_std([p[i] for i in idx]))
     return out
+
+
+# --------------------------------------------------------------------------------------------
+# long periodic words ("scale" family) and permutation-level ground truth at those lengths
+# --------------------------------------------------------------------------------------------
+
+def alternating_periods():
+    """Every primitive period of length 2 or 4 of a run of direction letters (axes alternate, also
+    across the seam): 8 zigzags (UR, RU, ...), 8 spirals (URDL, ULDR, ... and their rotations) and
+    the 16 other words of length 4 (URDR, URUL, ...)."""
+    out = set()
+    for t in itertools.product(DIRS, repeat=4):
+        w = "".join(t)
+        if is_m_word(w + w[0]):
+            out.add(w[:2] if w[:2] == w[2:] else w)
+    return sorted(out, key=lambda x: (len(x), x))
+
+
+def is_spiral(period):
+    return len(period) == 4 and len(set(period)) == 4
+
+
+def contains_perm(big, small):
+    """Classical containment, depth first over the positions of big."""
+    k, n = len(small), len(big)
+
+    def place(chosen):
+        j = len(chosen)
+        if j == k:
+            return True
+        lo = chosen[-1] + 1 if chosen else 0
+        for i in range(lo, n - (k - j) + 1):
+            if all((big[i] < big[c]) == (small[j] < small[a]) for a, c in enumerate(chosen)):
+                if place(chosen + [i]):
+                    return True
+        return False
+    return place([])
+
+
+def pin_words_of_perm(perm):
+    """All pin words whose permutation is perm: letter by letter; a prefix of a pin word of perm
+    describes some of its pins, so its permutation must be contained in perm."""
+    perm = tuple(perm)
+    res = []
+
+    def extend(word):
+        if len(word) == len(perm):
+            if perm_of(word) == perm:
+                res.append(word)
+            return
+        for c in ALPHABET:
+            nxt = word + c
+            if not is_pinword(nxt):
+                continue
+            if len(nxt) == len(perm) or contains_perm(perm, perm_of(nxt)):
+                extend(nxt)
+    extend("")
+    return res
